@@ -5,6 +5,7 @@
 import PV.Wire
 import PV.Model.Gamma
 import PV.Spec.Wolff
+import PV.Model.History
 
 open Lean PV PV.Wire
 
@@ -39,10 +40,50 @@ def opGamma (spec : Bool) (j : Json) : Except String Json := do
                         ("ens", .arr (r.ens.map encEns).toArray),
                         ("cov", .arr (r.covErr.map (fun c => Json.arr #[enc c.1, enc c.2])).toArray)])
 
+def decKw (s : String) : Except String Kw :=
+  match s with
+  | "S" => .ok .S | "tau_exp" => .ok .tauExp | "N_sigma" => .ok .nSigma
+  | _ => .error s!"unknown parameter {s}"
+
+def decHOp (j : Json) : Except String (HOp Float) := do
+  let k : String ← get j "k"
+  match k with
+  | "setglobal" => pure (.setGlobal (← decKw (← get j "name")) (← get j "val"))
+  | "setdict" => pure (.setDict (← decKw (← get j "name")) (← get j "ens") (← get j "val"))
+  | "deldict" => pure (.delDict (← decKw (← get j "name")) (← get j "ens"))
+  | "gm" => do
+    let kw ← decPairs (α := Float) (← field j "kw")
+    let kw' ← kw.mapM (fun p => do pure ((← decKw p.1), p.2))
+    pure (.gm (← get j "i") kw')
+  | _ => pure .arith
+
+/-- op "gm_history": {"ens": [[ensemble names of object i]..], "ops": [...]}: runs the state
+    machine with `analyse := the effective parameters themselves` and returns, per `gm` step,
+    the parameters the model resolves (or "exc") -/
+def opHistory (j : Json) : Except String Json := do
+  let enss : List (List String) ← get j "ens"
+  let opsJ : List Json ← get j "ops"
+  let ops ← opsJ.mapM decHOp
+  let ensOf : Nat → List String := fun i => enss.getD i []
+  let g0 : Globals Float := Globals.default 2.0 0.0 1.0
+  -- replay step by step so that the parameters of every gm call are reported
+  let mut g := g0
+  let mut out : Array Json := #[]
+  for op in ops do
+    match op with
+    | .gm i kw =>
+      match effective g kw (ensOf i) with
+      | .error _ => out := out.push (.str "exc")
+      | .ok p => out := out.push (.arr (p.map (fun (e, s, t, n) => Json.arr #[enc e, enc s, enc t, enc n])).toArray)
+    | _ => pure ()
+    g := globalsAfter g [op]
+  pure (.arr out)
+
 def dispatch (op : String) (j : Json) : Except String Json :=
   match op with
   | "gamma" => opGamma false j
   | "wolff" => opGamma true j
+  | "gm_history" => opHistory j
   | "ping" => pure (.str "pong")
   | _ => .error s!"unknown op {op}"
 
